@@ -121,7 +121,10 @@ pub fn run_one(seed: u64, focus: Focus, faults: bool, index: u64) -> (RunDesc, R
 
 pub fn run_one_emit(seed: u64, focus: Focus, faults: bool, index: u64, emit: bool) -> (RunDesc, RunSummary) {
     let desc = gen::generate(seed, focus, faults);
-    let (out, hung) = exec::execute_watched(&desc, std::time::Duration::from_secs(RUN_TIMEOUT_S));
+    // an H5 run converts its history 40 times in one simulated process: its deadline
+    // is scaled, so that a loaded machine does not turn long sessions into "hangs"
+    let deadline = if desc.variant.as_ref().map(|v| v.relation == "H5").unwrap_or(false) { 12 * RUN_TIMEOUT_S } else { RUN_TIMEOUT_S };
+    let (out, hung) = exec::execute_watched(&desc, std::time::Duration::from_secs(deadline));
     let settings_digest = fnv64(serde_json::to_string(&desc.settings).unwrap().as_bytes());
     let summary = RunSummary {
         index,
@@ -504,6 +507,8 @@ pub fn check(property: &str, tier: &str, base_seed: u64, workers: usize, runs_ov
     let mut harness_errors: Vec<String> = Vec::new();
     let mut stage_info = Vec::new();
     let mut first_seed = None;
+    let mut hung_total = 0u64;
+    let mut truncated_total = 0u64;
 
     for (si, stage) in stages.iter().enumerate() {
         let ts = Instant::now();
@@ -599,10 +604,15 @@ pub fn check(property: &str, tier: &str, base_seed: u64, workers: usize, runs_ov
                 "relation": d.variant.as_ref().map(|v| v.relation.clone()),
             }));
         }
+        let hung_here = res.iter().filter(|s| s.hung).count();
+        hung_total += hung_here as u64;
+        truncated_total += stage.runs.saturating_sub(res.len() as u64);
         stage_info.push(json!({
             "stage": stage.name,
             "faults": stage.faults,
             "runs": res.len(),
+            "runs_planned": stage.runs,
+            "runs_hung": hung_here,
             "wall_s": ts.elapsed().as_secs_f64(),
         }));
     }
@@ -866,6 +876,9 @@ pub fn check(property: &str, tier: &str, base_seed: u64, workers: usize, runs_ov
     if let Err(e) = ev.write() {
         eprintln!("HARNESS: cannot write evidence: {e}");
         return CheckResult { exit_code: 2 };
+    }
+    if hung_total > 0 || truncated_total > 0 {
+        println!("note: {hung_total} run(s) exceeded the watchdog and {truncated_total} planned run(s) were not executed (a slice stops after {MAX_HANGS_PER_SLICE} hangs)");
     }
     println!(
         "{} runs, {} steps, {} distinct non-trivial histories, {} abstract states, {} canary orders, {:.1}s; {} new violation(s), {} known finding(s)",
